@@ -37,6 +37,8 @@ Emit == Mode = "shapes" /\ s.phase = "emit" /\ PrintT(ToJson([chk |-> "C11", cas
 Iter == Mode = "control" /\ s.phase = "loop" /\ \E conv \in BOOLEAN : s' = MR_Step(c.n, c.max_iter, s, conv) /\ UNCHANGED c
 Next == Emit \/ Iter
 Spec == Init /\ [][Next]_vars
+FairSpec == Spec /\ WF_vars(Next)
+Termination == <>(s.phase # "loop" /\ s.phase # "emit")
 
 \* never more iterations than min(max_iter, n + 1) + 2, and exactly that many unless a convergence test succeeded
 InvBudget == Mode = "control" => (s.i <= Min2(c.max_iter, c.n + 1) + 2 /\ (s.phase = "budget" => s.i = Min2(c.max_iter, c.n + 1) + 2))
